@@ -51,6 +51,11 @@ def lift(e,x): return x.z if isinstance(x,SymInt) else x
 class SymBool:
     def __init__(self,e,z): self.e=e; self.z=z
     def __bool__(self): return self.e.branch(self.z)
+    def _i(self): return SymInt(self.e,z3.If(self.z,1,0))
+    def __sub__(self,o): return self._i()-(o._i() if isinstance(o,SymBool) else o)
+    def __rsub__(self,o): return o-self._i()
+    def __add__(self,o): return self._i()+(o._i() if isinstance(o,SymBool) else o)
+    __radd__=__add__
 class SymInt:
     def __init__(self,e,z): self.e=e; self.z=z
     def _b(self,o,f): return SymInt(self.e,f(self.z,lift(self.e,o)))
